@@ -690,6 +690,9 @@ pub enum SOp {
     SetKey(u8),
     /// enable / disable the governed animator
     Enable(bool),
+    /// the documented hot-swap on the governed animator: `Animator::set_timeline(tls[i])` (keeps state and
+    /// position; the selector's registered timelines are not affected and come back at the next key change)
+    HotSwap(u8),
 }
 
 #[derive(Clone, Debug, Serialize, Deserialize)]
@@ -718,6 +721,7 @@ fn c19_strategy() -> impl Strategy<Value = C19Case> {
         10 => prop_oneof![6 => 0u8..5, 2 => 5u8..16].prop_map(SOp::Frame),
         3 => (0u8..4).prop_map(SOp::SetKey),
         1 => any::<bool>().prop_map(SOp::Enable),
+        1 => (0u8..3).prop_map(SOp::HotSwap),
     ];
     let chain = prop::option::weighted(
         0.7,
@@ -739,7 +743,7 @@ fn c19_strategy() -> impl Strategy<Value = C19Case> {
         .prop_map(|(tls, initial_key, chain, with_b, start, ops, b_delay, ctor_timeline)| C19Case { tls, initial_key, chain, with_b, b_delay, ctor_timeline, start, ops })
 }
 
-const C19_LABELS: [&str; 15] = ["key_change_mid_flight", "chain_fired", "end_without_chain_entry", "other_animator_ended", "key_set_in_gap_after_end", "same_key_reassigned", "key_without_timeline", "has_chain", "two_component_types", "chain_first_order_consistent", "select_first_order_consistent", "ended_reached", "animator_disabled", "animator_constructed_with_a_timeline", "chain_made_with_reset_after"];
+const C19_LABELS: [&str; 16] = ["key_change_mid_flight", "chain_fired", "end_without_chain_entry", "other_animator_ended", "key_set_in_gap_after_end", "same_key_reassigned", "key_without_timeline", "has_chain", "two_component_types", "chain_first_order_consistent", "select_first_order_consistent", "ended_reached", "animator_disabled", "animator_constructed_with_a_timeline", "chain_made_with_reset_after", "hot_swap_under_a_selector"];
 
 /// One hypothesis about the (unspecified but fixed) relative order of chain_animations / select_animation.
 struct Hyp {
@@ -843,6 +847,14 @@ fn c19_judge(c: &C19Case, obs: &mut Obs) -> Result<(), String> {
             SOp::Enable(on) => {
                 w.app.world.get_mut::<Animator<A>>(entity).unwrap().enabled = on;
                 obs.label_if(12, !on);
+            }
+            SOp::HotSwap(i) => {
+                let d = &c.tls[i as usize % c.tls.len().max(1)];
+                w.app.world.get_mut::<Animator<A>>(entity).unwrap().set_timeline(build_a(d));
+                for h in hyps.iter_mut() {
+                    h.tl = Some(TlInForce::new(d, None));
+                }
+                obs.label(15);
             }
             SOp::Frame(sel) => {
                 let dns = DELTAS_NS[sel as usize % DELTAS_NS.len()];
